@@ -60,6 +60,7 @@ func c05Items() []withItem {
 		{"totalMatches", func(_ engine.Match, _ map[string]string, total int) string { return strconv.Itoa(total) }},
 		{"filename", func(m engine.Match, _ map[string]string, _ int) string { return m.Filename }},
 		{"nope", func(engine.Match, map[string]string, int) string { return "" }},
+		{"lp", func(engine.Match, map[string]string, int) string { return "" }}, // names a named loop (a map, not text) where one exists: contributes nothing
 		{"t1", func(m engine.Match, _ map[string]string, _ int) string { return m.Value + strconv.Itoa(m.MatchNumber) }},
 		{"t2", func(m engine.Match, _ map[string]string, _ int) string { return strconv.Itoa(len(m.Value) * 2) }},
 		{"t3", func(m engine.Match, v map[string]string, _ int) string {
@@ -82,7 +83,7 @@ func c05Items() []withItem {
 
 var c05Bodies = []string{
 	"any = x", "(any = x) maybe (any = y)", "('a' = x) or ('b' = y)", "at least 1 'a'", "(at least 1 'a') = x 'b'", "any",
-	"pcap maybe (any = y)", "pcap2 maybe pcap2",
+	"pcap maybe (any = y)", "pcap2 maybe pcap2", "at least 1 ('a' = x) named lp maybe (any = y)",
 	"(maybe 'a') = x ('b' or '\\n') = y", "(any = y) maybe (y = x)", "at least 1 ((any = x) (any = y))", "'a' (at least 0 any fewest) = y 'b'",
 }
 
